@@ -10,6 +10,7 @@ import (
 )
 
 type sortReg struct {
+	tagTypes map[int]types.Type // type tag -> concrete type
 	sc       *Script
 	structs  map[string]*structInfo // sort name -> info
 	inProg   map[string]bool
@@ -211,6 +212,10 @@ func (r *sortReg) typeTag(t types.Type) int {
 	}
 	n := len(r.typeTags) + 1
 	r.typeTags[k] = n
+	if r.tagTypes == nil {
+		r.tagTypes = map[int]types.Type{}
+	}
+	r.tagTypes[n] = t
 	return n
 }
 
